@@ -644,7 +644,7 @@ class Connection(object):
     def _handle_ctxexit(self, obj, exc):  # request handler
         if exc:
             try:
-                raise exc
+                raise self._unbox_exc(exc)
             except Exception:
                 exc, typ, tb = sys.exc_info()
         else:
